@@ -51,12 +51,15 @@ func parseConf(t reflect.Type, data interface{}) (name string, fillConf func(con
 			zap.Reflect("conf", data),
 		)
 	}
-	confData, err := toStringKeyMap(data)
+	allData, err := toStringKeyMap(data)
 	if err != nil {
 		return
 	}
+	// Passed data can be decoded more than once (factory config is decoded on every call),
+	// so plugin config is collected into new map, and data is left untouched.
+	confData := make(map[string]interface{}, len(allData))
 	var names []string
-	for key, val := range confData {
+	for key, val := range allData {
 		if PluginNameKey == strings.ToLower(key) {
 			strVal, ok := val.(string)
 			if !ok {
@@ -64,8 +67,9 @@ func parseConf(t reflect.Type, data interface{}) (name string, fillConf func(con
 				return
 			}
 			names = append(names, strVal)
-			delete(confData, key)
+			continue
 		}
+		confData[key] = val
 	}
 	if len(names) == 0 {
 		err = errors.Errorf("plugin %s expected", PluginNameKey)
